@@ -84,7 +84,10 @@ def main():
     for i in range(nfiles):
         p = os.path.join(tmp, f'f{i}.log')
         with open(p, 'w') as f:
-            for k in range(plan.get('lines', 40)):
+            # 'big': the files that are NOT hit produce far more result batches than the
+            # (patched-down) results queue holds
+            nlines = plan['big'] if plan.get('big') and i != plan['file'] else plan.get('lines', 40)
+            for k in range(nlines):
                 f.write(f"S item{i}_{k} value{k % 7}\n" if k % 5 == 0 else
                         f"B item{i}_{k} value{k % 7}\n" if k % 5 else f"E end{k}\n")
         paths.append(p)
@@ -185,6 +188,9 @@ def main():
         def __getattr__(self, name):
             return getattr(self._real, name)
 
+    if plan.get('queue_size'):
+        TK.RESULTS_QUEUE_SIZE = plan['queue_size']
+        SR.RESULTS_QUEUE_SIZE = plan['queue_size']
     TK.SearchTask.execute = execute
     TK.SearchTask._simple_search = _simple_search
     TK.SearchTask.put_result = put_result
